@@ -82,3 +82,22 @@ add('float_plain_members', ['C10', 'C01'], '''    let x: f64 = kani::any(); let 
     assert!(<f64 as EvalexprFloat<N>>::max(&x, &y).to_bits() == x.max(y).to_bits());
     assert!(<f64 as EvalexprFloat<N>>::MIN == f64::NEG_INFINITY && <f64 as EvalexprFloat<N>>::MAX == f64::INFINITY);''',
     doc='the non-libm members of `impl EvalexprFloat for f64` are the corresponding std operations, bit for bit')
+
+# ---- every libm-backed and rounding member of `impl EvalexprFloat for f64` (the leaves under the macro-generated
+# ---- float builtins): floor / round / ceil with CBMC's IEEE semantics, the libm members through distinct tagged
+# ---- stubs (routing and argument order; the library values themselves are trusted)
+_UNARY = ['ln', 'log2', 'log10', 'exp', 'exp2', 'cos', 'acos', 'cosh', 'acosh', 'sin', 'asin', 'sinh', 'asinh', 'tan', 'atan', 'tanh', 'atanh', 'sqrt', 'cbrt']
+_BINARY = [('log', 'log'), ('pow', 'powf'), ('atan2', 'atan2'), ('hypot', 'hypot')]
+add('float_rounding_members', ['C10', 'C01'], '''    let x: f64 = kani::any();
+    assert!(<f64 as EvalexprFloat<N>>::floor(&x).to_bits() == x.floor().to_bits());
+    assert!(<f64 as EvalexprFloat<N>>::round(&x).to_bits() == x.round().to_bits());
+    assert!(<f64 as EvalexprFloat<N>>::ceil(&x).to_bits() == x.ceil().to_bits());''',
+    decode=('float_member',), doc='floor / round / ceil of `impl EvalexprFloat for f64` are the std operations, bit for bit, for every double')
+_MEMBERS = [(f, 'stub_' + f, 'f64::' + f, 1) for f in _UNARY] + [(m, 'stub2_' + st, 'f64::' + st, 2) for m, st in _BINARY]
+for _g in range(0, len(_MEMBERS), 6):
+    _grp = _MEMBERS[_g:_g + 6]
+    add('float_libm_members_%d' % (_g // 6), ['C10', 'C01'], '    let x: f64 = kani::any(); let y: f64 = kani::any();\n'
+        + '\n'.join(('    assert!(<f64 as EvalexprFloat<N>>::%s(&x).to_bits() == %s(x).to_bits());' if ar == 1 else
+                     '    assert!(<f64 as EvalexprFloat<N>>::%s(&x, &y).to_bits() == %s(x, y).to_bits());') % (m, st) for m, st, std, ar in _grp),
+        attrs='\n'.join('#[kani::stub(%s, %s)]' % (std, st) for m, st, std, ar in _grp), decode=('float_member',),
+        doc='libm-backed members %s of `impl EvalexprFloat for f64` call their own library function with the operands in order (library functions replaced by distinct tagged stubs)' % ', '.join(m for m, st, std, ar in _grp))
